@@ -131,6 +131,33 @@ def h_zero(run, cfg):
         run.check(s.capital == cap0, 'zero-amount-cash')
 
 
+def h_zero_at_zero_price(run, cfg):
+    """a zero amount does nothing - also when the price of a held security is exactly zero"""
+    B = bt()
+    dts = dates(2)
+    data = frame(run, dts, ['a'], lambda i, c: cfg['p'] if i == 0 else 0.0)
+    s = B.core.StrategyBase('s', [B.core.SecurityBase('a', multiplier=cfg['m'])])
+    integer = bool(cfg['int'])
+    s.use_integer_positions(integer)
+    s.setup(data)
+    s.update(dts[0])
+    s.adjust(1e9)
+    pos0 = run.integer('pos0', -10 ** 4, 10 ** 4) if integer else run.real('pos0', -10 ** 4, 10 ** 4)
+    s['a'].transact(pos0)
+    s.update(dts[0])
+    s.update(dts[1])
+    before, cap0 = s['a'].position, s.capital
+    for amt in (0.0, 1e-17):
+        try:
+            s['a'].allocate(amt)
+            s.allocate(amt, 'a')
+            s.update(dts[1])
+        except Exception as e:
+            run.fail('zero-amount-noop', 'raised %r' % (e,))
+        run.check(s['a'].position == before, 'zero-amount-noop', 'position %r -> %r at price 0' % (before, s['a'].position))
+        run.check(s.capital == cap0, 'zero-amount-cash')
+
+
 def h_badprice(run, cfg):
     """a trade at a missing or zero price is refused with an error."""
     for bad in (0.0, NAN):
@@ -146,7 +173,7 @@ def h_badprice(run, cfg):
     run.check(True, 'badprice-refused')
 
 
-HARNESSES = {'alloc': h_alloc, 'closeout': h_closeout, 'zero': h_zero, 'badprice': h_badprice}
+HARNESSES = {'alloc': h_alloc, 'closeout': h_closeout, 'zero': h_zero, 'badprice': h_badprice, 'zero_at_zero_price': h_zero_at_zero_price}
 
 
 def _ok(p, m, fee, sp=None):
@@ -182,6 +209,7 @@ def plan(tier):
             tasks.append(dict(harness='closeout', cfg=cfg))
             tasks.append(dict(harness='zero', cfg=cfg))
     for integer in (0, 1):
+        tasks.append(dict(harness='zero_at_zero_price', cfg=dict(p=100.0, m=1.0, s=None, fee=['none', None], int=integer)))
         tasks.append(dict(harness='badprice', cfg=dict(p=100.0, m=1.0, s=None, fee=['none', None], int=integer)))
         tasks.append(dict(harness='badprice', cfg=dict(p=100.0, m=10.0, s=0.5, fee=['fixed', 1.0], int=integer)))
     return tasks
